@@ -3,11 +3,15 @@ CONSTANTS
   Members = {"p", "q"}
   Vals = {1, 2}
   HwMax = 1
-  HwModes = {"clip", "refuse"}
+  HwModes = {"refuse"}
+  Excs = {"other"}
+CONSTRAINT MCDepth4
 INVARIANT TypeOK
+INVARIANT AgreeShown
 INVARIANT Agree
 PROPERTY WriteLands
 PROPERTY RefusedNotStored
 PROPERTY ReadShowsHw
 PROPERTY CacheOpsKeepHw
+PROPERTY FailedWriteOnlyAsked
 CHECK_DEADLOCK FALSE
